@@ -5,6 +5,9 @@ package dastard
 // C12 — phase unwrapping keeps the signal modulo flux quanta and is independent of how the
 // sequence is split into calls. Engine A: full enumeration of short sequences over boundary values,
 // all splits into calls, all option sets; oracle = the property's integer arithmetic.
+// Option sets: every (fraction bits, bits dropped) pair of vC12FractionBits x vC12Drops the constructor
+// accepts (quanta of 2^9 .. 2^15 output units; no bits dropped = unwrapping cannot be enabled, the
+// constructor panics, so that column only exists with unwrapping off).
 // Family "device paths": the two production owners of per-channel unwrappers (AbacoGroup.demuxData and
 // RoachDevice.readPackets) are driven block after block and compared with ONE fresh unwrapper that sees
 // the whole sequence in a single call.
@@ -98,7 +101,15 @@ func (o vUnwrapOpt) check(seq []RawType) (viol, class string, wrapped bool, outc
 	}
 	outcome = string(ob)
 	q := o.quantum()
-	if !o.enable {
+	if !o.enable && o.drop == 0 {
+		// nothing is dropped: the statement only says "the input after inversion plus a whole number of quanta"
+		// (whether bits above the fraction bits are kept is not stated; with 16 fraction bits this is identity)
+		for i := range seq {
+			if d := int(out[i]) - o.inPrime(seq[i]); d%q != 0 {
+				return fmt.Sprintf("unwrap disabled, no bits dropped: sample %d input' %d output %d differ by %d, not a whole number of quanta (%d)", i, o.inPrime(seq[i]), out[i], d, q), "unwrap-disabled-not-identity", false, outcome
+			}
+		}
+	} else if !o.enable {
 		for i := range seq {
 			if int(out[i]) != o.inPrime(seq[i]) {
 				return fmt.Sprintf("unwrap disabled: sample %d input' %d output %d", i, o.inPrime(seq[i]), out[i]), "unwrap-disabled-not-identity", false, outcome
@@ -152,15 +163,18 @@ func (o vUnwrapOpt) check(seq []RawType) (viol, class string, wrapped bool, outc
 		}
 	}
 	// split invariance: every composition of n into calls
+	res := make([]RawType, n)
 	for mask := 1; mask < 1<<(n-1); mask++ {
 		u2 := o.make()
-		res := make([]RawType, 0, n)
+		copy(res, seq)
 		start := 0
 		for i := 1; i <= n; i++ {
 			if i == n || mask&(1<<(i-1)) != 0 {
-				part := vCopyRaw(seq[start:i])
+				part := res[start:i:i] // each call gets exactly its samples, in place
 				u2.UnwrapInPlace(&part)
-				res = append(res, part...)
+				if &part[0] != &res[start] { // the callee replaced the slice: the caller sees what it points to now
+					copy(res[start:i], part)
+				}
 				start = i
 			}
 		}
@@ -685,6 +699,38 @@ func vRoachCases(r *vexp.Runner) (nvar int) {
 	return len(vars)
 }
 
+// the (fraction bits, bits dropped) pairs of the direct family: the full cross product. Production uses
+// 16/4 and 16/0 (Abaco with and without RescaleRaw; 13 fraction bits before 2021) and 14/2 (ROACH).
+var vC12FractionBits = []uint{16, 15, 14, 13}
+var vC12Drops = []uint{0, 1, 2, 3, 4}
+
+// every option set of the direct family, in a fixed order
+func vC12OptionSets() (opts []vUnwrapOpt, npairs int) {
+	for _, fb := range vC12FractionBits {
+		for _, drop := range vC12Drops {
+			npairs++
+			for _, enable := range []bool{true, false} {
+				if enable && drop == 0 {
+					continue // NewPhaseUnwrapper panics by design: there is no room for the added quanta
+				}
+				for bias := 0; bias < 3; bias++ {
+					for _, ra := range []int{1, 2, 3} {
+						for _, ps := range []int{+1, -1} {
+							for _, inv := range []bool{false, true} {
+								if !enable && (bias != 0 || ra != 1 || ps != 1) {
+									continue // these options are unused when unwrapping is off
+								}
+								opts = append(opts, vUnwrapOpt{fb, drop, enable, bias, ra, ps, inv})
+							}
+						}
+					}
+				}
+			}
+		}
+	}
+	return opts, npairs
+}
+
 func TestVerifC12(t *testing.T) {
 	r := vexp.NewRunner("C12")
 	defer r.Finish()
@@ -696,54 +742,76 @@ func TestVerifC12(t *testing.T) {
 	if r.Thorough() {
 		nRoach = 62
 	}
-	r.SetBound(fmt.Sprintf("all sequences of length 1..%d over 8 boundary values x all 2^(n-1) splits into calls x 288 option sets (fraction bits 14|16, bits dropped 2|4, enable, bias 0|+q/4|-q/4, resetAfter 1|2|3, pulse sign, inversion)"+
-		"; device paths: (a) real AbacoGroup (channels 6-7): 24 option sets accepted by isvalid (RescaleRaw, Unwrap, Bias, ResetAfter 6|1000, PulseSign +-1, channel 7 in InvertChan or only decoys) x 3 two-channel signals of 45-48 samples (slow ramps through several quanta in both directions, boundary values, pulses; 1|2|3 frames per packet) x every partition of the packets into 1, 2 or 3 demuxData calls, against one fresh unwrapper fed everything in one call"+
-		"; (b) real RoachDevice over UDP on 127.0.0.1: %d variants (pulse sign, 2|4-byte words, packetisation, ramp speed%s), 3+ bursts = 3+ blocks from readPackets after samplePacket, against one fresh unwrapper fed everything after the sampled packet in one call", maxLen, nRoach,
-		map[bool]string{false: "", true: ", bias, pulse sign 0"}[r.Thorough()]))
-	for _, fb := range []uint{16, 14} {
-		for _, drop := range []uint{2, 4} {
-			for _, enable := range []bool{true, false} {
-				for bias := 0; bias < 3; bias++ {
-					for _, ra := range []int{1, 2, 3} {
-						for _, ps := range []int{+1, -1} {
-							for _, inv := range []bool{false, true} {
-								o := vUnwrapOpt{fb, drop, enable, bias, ra, ps, inv}
-								if !enable && (bias != 0 || ra != 1 || ps != 1) {
-									continue // these options are unused when unwrapping is off
-								}
-								alpha := o.alphabet()
-								for first := range alpha {
-									first := first
-									r.DFS(fmt.Sprintf("%v/first=%d", o, first), -1, func(x *vexp.X) vexp.Result {
-										seq := []RawType{alpha[first]}
-										for len(seq) < maxLen {
-											c := x.Choose(len(alpha) + 1)
-											if c == 0 {
-												break
-											}
-											seq = append(seq, alpha[c-1])
-										}
-										x.Steps = len(seq) << uint(len(seq)-1)
-										v, cls, wrapped, oc := o.check(seq)
-										if v != "" {
-											v = fmt.Sprintf("options %v, raw sequence %v: %s", o, seq, v)
-										}
-										return vexp.Result{Violation: v, Class: cls, Nontrivial: wrapped && len(seq) > 1, Outcome: oc}
-									})
-								}
-							}
-						}
-					}
-				}
-			}
+	opts, npairs := vC12OptionSets()
+	qmin, qmax := 1<<30, 0
+	for _, o := range opts {
+		if o.enable && o.quantum() < qmin {
+			qmin = o.quantum()
+		}
+		if o.enable && o.quantum() > qmax {
+			qmax = o.quantum()
 		}
 	}
-	// device paths: the code under test starts goroutines of its own (a panic there is not recoverable)
+	// thorough: the longest sequences for the pairs production uses (16/4, 16/0, 14/2), their mixed pairs
+	// (16/2, 14/4) and the smallest and largest quantum; one sample less for the rest of the cross product
+	lenFor := func(o vUnwrapOpt) int {
+		if !r.Thorough() {
+			return maxLen
+		}
+		if (o.fractionBits == 16 || o.fractionBits == 14) && (o.drop == 0 || o.drop == 2 || o.drop == 4) {
+			return maxLen
+		}
+		if q := o.quantum(); o.drop > 0 && (q == qmin || q == qmax) {
+			return maxLen
+		}
+		return maxLen - 1
+	}
+	lenText := fmt.Sprintf("1..%d", maxLen)
+	if r.Thorough() {
+		lenText = fmt.Sprintf("1..%d for fraction bits 16|14 x bits dropped 0|2|4 and for the smallest and largest quantum, 1..%d for the other pairs,", maxLen, maxLen-1)
+	}
+	r.SetBound(fmt.Sprintf("all sequences of length %s over 8 boundary values x all 2^(n-1) splits into calls x %d option sets (all %d pairs of fraction bits %v x bits dropped %v, quanta %d..%d with unwrapping on; enable (never with 0 bits dropped: the constructor panics), bias 0|+q/4|-q/4, resetAfter 1|2|3, pulse sign, inversion)"+
+		"; device paths: (a) real AbacoGroup (channels 6-7): 24 option sets accepted by isvalid (RescaleRaw, Unwrap, Bias, ResetAfter 6|1000, PulseSign +-1, channel 7 in InvertChan or only decoys) x 3 two-channel signals of 45-48 samples (slow ramps through several quanta in both directions, boundary values, pulses; 1|2|3 frames per packet) x every partition of the packets into 1, 2 or 3 demuxData calls, against one fresh unwrapper fed everything in one call"+
+		"; (b) real RoachDevice over UDP on 127.0.0.1: %d variants (pulse sign, 2|4-byte words, packetisation, ramp speed%s), 3+ bursts = 3+ blocks from readPackets after samplePacket, against one fresh unwrapper fed everything after the sampled packet in one call", lenText, len(opts), npairs, vC12FractionBits, vC12Drops, qmin, qmax, nRoach,
+		map[bool]string{false: "", true: ", bias, pulse sign 0"}[r.Thorough()]))
+	// device paths first (a deadline then cuts the long tail of the direct family, not these): the code under
+	// test starts goroutines of its own (a panic there is not recoverable)
 	r.CrashTrace = true
 	if n := vAbacoCases(r); n != 24 {
 		panic(fmt.Sprintf("VERIF-INFRA C12: %d Abaco option sets, the bound says 24", n))
 	}
 	if n := vRoachCases(r); n != nRoach {
 		panic(fmt.Sprintf("VERIF-INFRA C12: %d ROACH variants, the bound says %d", n, nRoach))
+	}
+	r.CrashTrace = false
+	// direct family; in the thorough tier the shorter (cheaper) part of the cross product first
+	for pass := 0; pass < 2; pass++ {
+		for _, o := range opts {
+			o := o
+			n := lenFor(o)
+			if (pass == 0) != (n < maxLen || !r.Thorough()) {
+				continue
+			}
+			alpha := o.alphabet()
+			for first := range alpha {
+				first := first
+				r.DFS(fmt.Sprintf("%v/first=%d", o, first), -1, func(x *vexp.X) vexp.Result {
+					seq := []RawType{alpha[first]}
+					for len(seq) < n {
+						c := x.Choose(len(alpha) + 1)
+						if c == 0 {
+							break
+						}
+						seq = append(seq, alpha[c-1])
+					}
+					x.Steps = len(seq) << uint(len(seq)-1)
+					v, cls, wrapped, oc := o.check(seq)
+					if v != "" {
+						v = fmt.Sprintf("options %v, raw sequence %v: %s", o, seq, v)
+					}
+					return vexp.Result{Violation: v, Class: cls, Nontrivial: wrapped && len(seq) > 1, Outcome: oc}
+				})
+			}
+		}
 	}
 }
